@@ -1,47 +1,136 @@
 /-
-  Rbgp.Rib.CtrFacts — what one step of the model does to the recounts (`recvCount`, `accCount`) and to
-  the prefix-limit counters (`Table.ctrs`).  Used by the C15 master theorem.  The recounts are read off
-  the statistics, which the invariant ties to the RIB before and after the step.
+  Rbgp.Rib.CtrFacts — what one step of the model does to the recounts (`recvCount`, `accCount`, the
+  per-session `sessCount`) and to the prefix-limit counters (`Table.ctrs`).  Used by the C15 theorems.
+  The per-address recounts are read off the statistics, which the invariant ties to the RIB before and
+  after the step; the per-session recount is followed through the RIB.
 -/
 import Rbgp.Rib.EntryInsert
 import Rbgp.Rib.InvPurge
+import Rbgp.Rib.EntryMisc
+namespace Rbgp.Rib
+
+/-- number of destinations with at least one path satisfying `q` -/
+def cntBy (q : Entry → Bool) (r : Rib) : Nat := (r.dests.filter fun nd => nd.2.entries.any q).length
+
+/-- recount of a session's limit counter: destinations with at least one path of that Source -/
+def sessCount (i : Nat) (r : Rib) : Nat := cntBy (fun e => e.src.id == i) r
+
+end Rbgp.Rib
+
 namespace Rbgp.Rib.C15
 
 /-! ## The statement -/
 
+/-- what an `insert` / `remove` of source `src` for prefix (fam, net) does to the OTHER sessions' recounts:
+    they can only go down, and stay if no path of theirs has the address of `src` -/
+def OtherSess (t t' : Table) (src : Src) (fam : Fam) (net : Net) : Prop :=
+  (∀ i f, (i, f) ≠ (src.id, fam) → sessCount i (t'.rib f) ≤ sessCount i (t.rib f)) ∧
+  (∀ i f, (i, f) ≠ (src.id, fam) →
+    (f = fam → ∀ x ∈ t.entries fam net, x.src.id = i → x.src.addr ≠ src.addr) →
+    sessCount i (t'.rib f) = sessCount i (t.rib f))
+
 /-- a purge of the paths of `a` in family `f` that was handed the counter of source `ctr` -/
 def PurgeSpec (t t' : Table) (a : Nat) (f : Fam) (ctr : Option Nat) : Prop :=
-  ∃ gone, recvCount a (t'.rib f) + gone = recvCount a (t.rib f) ∧
-    (∀ a' f', (a', f') ≠ (a, f) → recvCount a' (t'.rib f') = recvCount a' (t.rib f')) ∧
-    t'.ctrs = purgeCtrs t f gone ctr
+  ∃ gone, t'.ctrs = purgeCtrs t f gone ctr ∧
+    (∀ i f', sessCount i (t'.rib f') ≤ sessCount i (t.rib f')) ∧
+    (∀ i f', (f' = f → ∀ nd ∈ (t.rib f).dests, ∀ e ∈ nd.2.entries, e.src.id = i → e.src.addr ≠ a) →
+      sessCount i (t'.rib f') = sessCount i (t.rib f')) ∧
+    (∀ i, (∀ nd ∈ (t.rib f).dests, ∀ e ∈ nd.2.entries, (e.src.id = i ↔ e.src.addr = a)) →
+      sessCount i (t'.rib f) + gone = sessCount i (t.rib f))
 
 def CtrSpec (t t' : Table) (r : Res) : Op → Prop
   | .insert src fam net _ _ _ _ _ =>
-      (r = .limit → (!(t.entries fam net).any (sameAddr src.addr)) = true ∧
+      (r = .limit → ((t.entries fam net).any fun e => e.src.id == src.id) = false ∧
           (∃ max, src.lim = some max ∧ max ≤ t.ctr (src.id, fam)) ∧ t' = t) ∧
       (r ≠ .limit →
-        recvCount src.addr (t'.rib fam) =
-          recvCount src.addr (t.rib fam) + (!(t.entries fam net).any (sameAddr src.addr)).toNat ∧
-        (∀ a f, (a, f) ≠ (src.addr, fam) → recvCount a (t'.rib f) = recvCount a (t.rib f)) ∧
-        t'.ctrs = (if (!(t.entries fam net).any (sameAddr src.addr)) && src.lim.isSome then
+        sessCount src.id (t'.rib fam) =
+          sessCount src.id (t.rib fam) + (!(t.entries fam net).any fun e => e.src.id == src.id).toNat ∧
+        t'.ctrs = (if (!(t.entries fam net).any fun e => e.src.id == src.id) && src.lim.isSome then
             aset (src.id, fam) (atomicInc (t.ctr (src.id, fam))) t.ctrs else t.ctrs) ∧
-        ((!(t.entries fam net).any (sameAddr src.addr)) = true → ∀ max, src.lim = some max →
-          t.ctr (src.id, fam) < max))
-  | .remove src fam _ _ =>
-      ∃ d : Bool, recvCount src.addr (t'.rib fam) + d.toNat = recvCount src.addr (t.rib fam) ∧
-        (∀ a f, (a, f) ≠ (src.addr, fam) → recvCount a (t'.rib f) = recvCount a (t.rib f)) ∧
+        (((t.entries fam net).any fun e => e.src.id == src.id) = false → ∀ max, src.lim = some max →
+          t.ctr (src.id, fam) < max) ∧
+        OtherSess t t' src fam net)
+  | .remove src fam net _ =>
+      ∃ d : Bool, sessCount src.id (t'.rib fam) + d.toNat = sessCount src.id (t.rib fam) ∧
         t'.ctrs = (if d && src.lim.isSome then
-            aset (src.id, fam) (atomicDec (t.ctr (src.id, fam))) t.ctrs else t.ctrs)
+            aset (src.id, fam) (atomicDec (t.ctr (src.id, fam))) t.ctrs else t.ctrs) ∧
+        OtherSess t t' src fam net
   | .drop a f => PurgeSpec t t' a f none
   | .dropStale a f ctr => PurgeSpec t t' a f ctr
   | .dropLlgr a f ctr => PurgeSpec t t' a f ctr
   | .dropNoLlgr a f ctr => PurgeSpec t t' a f ctr
-  | _ => (∀ a f, recvCount a (t'.rib f) = recvCount a (t.rib f)) ∧ t'.ctrs = t.ctrs
+  | _ => (∀ i f, sessCount i (t'.rib f) = sessCount i (t.rib f)) ∧ t'.ctrs = t.ctrs
 
 structure CtrFacts (t : Table) (op : Op) (t' : Table) (r : Res) : Prop where
-  /-- no step adds more than one accepted path of a peer -/
+  /-- no step adds more than one prefix / accepted path of a peer -/
+  recvLe : ∀ a f, recvCount a (t'.rib f) ≤ recvCount a (t.rib f) + 1
   accLe : ∀ a f, accCount a (t'.rib f) ≤ accCount a (t.rib f) + 1
   spec : CtrSpec t t' r op
+
+/-! ## Counting destinations -/
+
+theorem any_congr_of_mem {α} {p q : α → Bool} {l : List α} (h : ∀ a ∈ l, p a = q a) : l.any p = l.any q := by
+  induction l with
+  | nil => rfl
+  | cons a l ih =>
+    simp only [List.any_cons, h a List.mem_cons_self, ih (fun b hb => h b (List.mem_cons_of_mem _ hb))]
+
+theorem any_of_sublist {α} {q : α → Bool} {l l' : List α} (h : l'.Sublist l) (h' : l'.any q = true) :
+    l.any q = true := by
+  obtain ⟨x, hx, hq⟩ := List.any_eq_true.mp h'
+  exact List.any_eq_true.mpr ⟨x, h.subset hx, hq⟩
+
+theorem toNat_le_of_imp {a b : Bool} (h : a = true → b = true) : a.toNat ≤ b.toNat := by
+  cases a <;> cases b <;> simp_all
+
+def cntL (q : Entry → Bool) (l : List (Net × Dest)) : Nat := (l.filter fun nd => nd.2.entries.any q).length
+
+theorem cntBy_eq (q : Entry → Bool) (r : Rib) : cntBy q r = cntL q r.dests := rfl
+
+theorem cntL_perm {q : Entry → Bool} {l l' : List (Net × Dest)} (h : l.Perm l') : cntL q l = cntL q l' :=
+  (h.filter _).length_eq
+
+theorem cntL_cons (q : Entry → Bool) (nd : Net × Dest) (l : List (Net × Dest)) :
+    cntL q (nd :: l) = (nd.2.entries.any q).toNat + cntL q l := by
+  unfold cntL; rw [List.filter_cons]
+  cases nd.2.entries.any q <;> simp <;> omega
+
+theorem cntL_split (q : Entry → Bool) (net : Net) (dests : List (Net × Dest)) :
+    cntL q dests = ((oldEs net dests).any q).toNat + cntL q (aerase net dests) := by
+  unfold oldEs
+  cases h : alookup net dests with
+  | none => simp [aerase_of_lookup_none h]
+  | some d => rw [cntL_perm (perm_aerase h), cntL_cons]
+
+theorem cntL_aset (q : Entry → Bool) (net : Net) (d' : Dest) (dests : List (Net × Dest)) :
+    cntL q (aset net d' dests) + ((oldEs net dests).any q).toNat = cntL q dests + (d'.entries.any q).toNat := by
+  rw [cntL_perm (perm_aset net d' dests), cntL_cons, cntL_split q net dests]
+  simp only []
+  omega
+
+theorem cntL_aerase (q : Entry → Bool) (net : Net) (dests : List (Net × Dest)) :
+    cntL q (aerase net dests) + ((oldEs net dests).any q).toNat = cntL q dests := by
+  rw [cntL_split q net dests]; omega
+
+theorem cntL_map_congr {q : Entry → Bool} {F : Net × Dest → Net × Dest} {l : List (Net × Dest)}
+    (h : ∀ nd ∈ l, (F nd).2.entries.any q = nd.2.entries.any q) : cntL q (l.map F) = cntL q l := by
+  unfold cntL
+  rw [List.filter_map, List.length_map]
+  congr 1
+  exact List.filter_congr h
+
+theorem cntL_eq_sum (q : Entry → Bool) (l : List (Net × Dest)) :
+    cntL q l = (l.map fun nd => (nd.2.entries.any q).toNat).sum := by
+  unfold cntL; rw [length_filter_eq_sum]
+
+theorem sum_map_le {α} {h k : α → Nat} {l : List α} (e : ∀ x ∈ l, h x ≤ k x) : (l.map h).sum ≤ (l.map k).sum := by
+  induction l with
+  | nil => simp
+  | cons x l ih =>
+    have := e x List.mem_cons_self
+    have := ih (fun y hy => e y (List.mem_cons_of_mem _ hy))
+    simp only [List.map_cons, List.sum_cons]
+    omega
 
 /-! ## Recounts through the statistics -/
 
@@ -68,11 +157,12 @@ theorem counts_of_aset (h' : Inv c g t') {a : Nat} {f : Fam} {st : Nat × Nat} {
   rw [hs, alookup_aset_self] at h2
   exact h2
 
-/-- a step that leaves statistics and counters alone -/
-theorem ctrFacts_same (h : Inv c g t) (h' : Inv c g t') (hs : t'.stats = t.stats) :
-    (∀ a f, accCount a (t'.rib f) ≤ accCount a (t.rib f) + 1) ∧
-    (∀ a f, recvCount a (t'.rib f) = recvCount a (t.rib f)) :=
-  ⟨fun a f => by rw [(counts_of_stats_eq h h' hs a f).2]; omega, fun a f => (counts_of_stats_eq h h' hs a f).1⟩
+/-- a step that leaves the statistics alone -/
+theorem le_of_stats_eq (h : Inv c g t) (h' : Inv c g t') (hs : t'.stats = t.stats) :
+    (∀ a f, recvCount a (t'.rib f) ≤ recvCount a (t.rib f) + 1) ∧
+    (∀ a f, accCount a (t'.rib f) ≤ accCount a (t.rib f) + 1) :=
+  ⟨fun a f => by rw [(counts_of_stats_eq h h' hs a f).1]; omega,
+   fun a f => by rw [(counts_of_stats_eq h h' hs a f).2]; omega⟩
 
 /-! ## `insert` -/
 
@@ -99,19 +189,41 @@ theorem insertStats_fst {p : Profile} {sg st : Nat × Nat} {rep : Option Entry} 
 theorem eA_sublist {addr : Nat} {l l' : List Entry} (h : l'.Sublist l) : eA addr l' ≤ eA addr l :=
   (h.filter _).length_le
 
+theorem plan_any_eq {dst : Dest} {a rpid : Nat} {pl : InsPlan} (spec : PlanSpec dst a rpid pl) {q : Entry → Bool}
+    (h : ∀ x ∈ dst.entries, x.src.addr = a → q x = false) : pl.entries.any q = dst.entries.any q := by
+  cases spec with
+  | fresh _ he _ _ => rw [he]
+  | repl i old _ he hi hm _ _ =>
+    rw [he, (eraseIdx_perm hi).any_eq, List.any_cons, h old (mem_of_getElem? hi) (addr_of_matchKey hm)]
+    rfl
+
+/-- the destination of an accepted `insert`, counted -/
+theorem insert_cnt (hinv : Inv c g t) (src : Src) (fam : Fam) (net : Net) (rpid : Nat) (e : Entry)
+    (st : Nat × Nat) (q : Entry → Bool) :
+    cntBy q ((insTable t src fam net (insertPlan t src fam net rpid) e st).rib fam) +
+        ((t.entries fam net).any q).toNat =
+      cntBy q (t.rib fam) + (q e || (insertPlan t src fam net rpid).entries.any q).toNat := by
+  obtain ⟨_, _, hdests⟩ := insert_plan_spec hinv src fam net rpid
+  unfold insTable
+  rw [upd_rib_self, cntBy_eq, cntBy_eq]
+  show cntL q (aset net (insDest t.flags net (insertPlan t src fam net rpid) e)
+    (insertPlan t src fam net rpid).rib.dests) + _ = _
+  rw [hdests, entries_eq_oldEs, cntL_aset]
+  congr 2
+  show (insertSorted (cmpFor t.flags net.t2) e (insertPlan t src fam net rpid).entries).any q = _
+  rw [(insertSorted_perm _ _ _).any_eq, List.any_cons]
+
+theorem insTable_rib_ne (src : Src) {fam f : Fam} (net : Net) (pl : InsPlan) (e : Entry) (st : Nat × Nat)
+    (hf : f ≠ fam) : (insTable t src fam net pl e st).rib f = t.rib f := by
+  unfold insTable; rw [upd_rib_ne _ _ _ _ hf]
+
 theorem ctrFacts_insert (p : Profile) (hinv : Inv c g t) (hinv' : Inv c g t') (src : Src) (fam : Fam) (net : Net)
     (rpid : Nat) (nh : Option Nat) (attr : Attrs) (filtered nhInv : Bool) {r : Res}
     (hstep : t.insert p src fam net rpid nh attr filtered nhInv = .ok (t', r)) :
     CtrFacts t (.insert src fam net rpid nh attr filtered nhInv) t' r := by
   obtain ⟨spec, hes, _⟩ := insert_plan_spec hinv src fam net rpid
-  have hnew : (insertPlan t src fam net rpid).isNew = !(t.entries fam net).any (sameAddr src.addr) := by
-    cases spec with
-    | fresh _ _ _ hn => rw [hn, hes]
-    | repl i old _ _ hi hm _ hn =>
-      rw [hn, ← hes]
-      have : (insertPlan t src fam net rpid).dst.entries.any (sameAddr src.addr) = true :=
-        List.any_eq_true.mpr ⟨old, mem_of_getElem? hi, sameAddr_of_eq (addr_of_matchKey hm)⟩
-      rw [this]; rfl
+  have hhas : (insertPlan t src fam net rpid).sessHas = (t.entries fam net).any fun e => e.src.id == src.id := by
+    rw [← hes, insertPlan_eq]; rfl
   have hrep : (insertPlan t src fam net rpid).replaced.isSome = true →
       (insertPlan t src fam net rpid).isNew = false := by
     cases spec with
@@ -123,12 +235,11 @@ theorem ctrFacts_insert (p : Profile) (hinv : Inv c g t) (hinv' : Inv c g t') (s
     cases hstep
     unfold limitHit at hlim
     rw [Bool.and_eq_true] at hlim
-    have ht : insertLimit t fam net (insertPlan t src fam net rpid) = t :=
-      insertLimit_eq hinv src fam net rpid hlim.1
+    have ht : insertLimit t fam net (insertPlan t src fam net rpid) = t := insertLimit_eq hinv src fam net rpid
     rw [ht]
-    refine ⟨fun a f => by omega, ?_, fun h => absurd rfl h⟩
+    refine ⟨fun a f => by omega, fun a f => by omega, ?_, fun h => absurd rfl h⟩
     intro _
-    refine ⟨by rw [← hnew]; exact hlim.1, ?_, rfl⟩
+    refine ⟨by rw [← hhas]; simpa using hlim.1, ?_, rfl⟩
     have h2 := hlim.2
     cases hl : src.lim with
     | none => rw [hl] at h2; exact absurd h2 (by simp)
@@ -147,12 +258,12 @@ theorem ctrFacts_insert (p : Profile) (hinv : Inv c g t) (hinv' : Inv c g t') (s
         simp only [] at hstep
         rw [insertCommit_eq'] at hstep
         cases hstep
-        have hstats : (insTable t src fam net (insertPlan t src fam net rpid)
-            (newEntry (insertPlan t src fam net rpid) src nh attr rpid filtered nhInv aslen) st).stats =
+        generalize hE : newEntry (insertPlan t src fam net rpid) src nh attr rpid filtered nhInv aslen = E at hinv' ⊢
+        have hEsrc : E.src = src := by rw [← hE]; rfl
+        have hstats : (insTable t src fam net (insertPlan t src fam net rpid) E st).stats =
             aset (src.addr, fam) st t.stats := by unfold insTable; rw [upd_stats]
-        have hctrs : (insTable t src fam net (insertPlan t src fam net rpid)
-            (newEntry (insertPlan t src fam net rpid) src nh attr rpid filtered nhInv aslen) st).ctrs =
-            (if (insertPlan t src fam net rpid).isNew && src.lim.isSome then
+        have hctrs : (insTable t src fam net (insertPlan t src fam net rpid) E st).ctrs =
+            (if !(insertPlan t src fam net rpid).sessHas && src.lim.isSome then
               aset (src.id, fam) (atomicInc (t.ctr (src.id, fam))) t.ctrs else t.ctrs) := by
           unfold insTable; rw [upd_ctrs]
         have hself := counts_of_aset hinv' hstats
@@ -163,58 +274,115 @@ theorem ctrFacts_insert (p : Profile) (hinv : Inv c g t) (hinv' : Inv c g t') (s
         have h2 : st.2 ≤ accCount src.addr (t.rib fam) + 1 := by
           have hcnt := dests_perm_old net (t.rib fam).dests src.addr
           rw [← entries_eq_oldEs, ← hes] at hcnt
-          obtain ⟨st0, hst0, _, hb⟩ := insertStats_ok p spec (cmpFor t.flags net.t2)
-            (e := newEntry (insertPlan t src fam net rpid) src nh attr rpid filtered nhInv aslen) rfl
-            (recvCount src.addr (t.rib fam)) (accCount src.addr (t.rib fam))
+          obtain ⟨st0, hst0, _, hb⟩ := insertStats_ok p spec (cmpFor t.flags net.t2) (e := E)
+            (by rw [hEsrc]) (recvCount src.addr (t.rib fam)) (accCount src.addr (t.rib fam))
             (by rw [accCount_eq, hcnt.2]; omega)
           rw [hsg] at hst
+          have hfil : E.filtered = filtered := by rw [← hE]; rfl
+          rw [hfil] at hst0
           have e0 : st0 = st := by
             have := hst0.symm.trans hst
             cases this; rfl
           subst e0
-          have hp := insertSorted_perm (cmpFor t.flags net.t2)
-            (newEntry (insertPlan t src fam net rpid) src nh attr rpid filtered nhInv aslen)
-            (insertPlan t src fam net rpid).entries
+          have hp := insertSorted_perm (cmpFor t.flags net.t2) E (insertPlan t src fam net rpid).entries
           rw [eA_perm hp, eA_cons] at hb
           have hsub := eA_sublist (addr := src.addr) spec.sublist
           split at hb <;> omega
         have hoth : ∀ a f, (a, f) ≠ (src.addr, fam) →
-            recvCount a ((insTable t src fam net (insertPlan t src fam net rpid)
-              (newEntry (insertPlan t src fam net rpid) src nh attr rpid filtered nhInv aslen) st).rib f) =
+            recvCount a ((insTable t src fam net (insertPlan t src fam net rpid) E st).rib f) =
               recvCount a (t.rib f) ∧
-            accCount a ((insTable t src fam net (insertPlan t src fam net rpid)
-              (newEntry (insertPlan t src fam net rpid) src nh attr rpid filtered nhInv aslen) st).rib f) =
+            accCount a ((insTable t src fam net (insertPlan t src fam net rpid) E st).rib f) =
               accCount a (t.rib f) := by
           intro a f hk
           exact counts_of_lookup hinv hinv' (by rw [hstats, alookup_aset_ne hk])
         have hnl : ∀ (b : Bool) (ch : Change), (if b then Res.noChange else Res.changed ch) ≠ Res.limit := by
           intro b ch; cases b <;> simp
-        refine ⟨?_, fun h => absurd h (hnl _ _), fun _ => ⟨?_, fun a f hk => (hoth a f hk).1, ?_, ?_⟩⟩
+        have e1 : st.1 = _ := congrArg Prod.fst hself
+        have e2 : st.2 = _ := congrArg Prod.snd hself
+        simp only [] at e1 e2
+        -- the per-session recounts
+        have hcnt := fun i => insert_cnt hinv src fam net rpid E st (fun x => x.src.id == i)
+        have hsub : ∀ i, (insertPlan t src fam net rpid).entries.any (fun x => x.src.id == i) = true →
+            (t.entries fam net).any (fun x => x.src.id == i) = true := by
+          intro i h; rw [← hes]; exact any_of_sublist spec.sublist h
+        refine ⟨?_, ?_, fun h => absurd h (hnl _ _), fun _ => ⟨?_, ?_, ?_, ?_, ?_⟩⟩
         · intro a f
           by_cases hk : (a, f) = (src.addr, fam)
-          · cases hk
-            have e2 : st.2 = _ := congrArg Prod.snd hself
-            simp only [] at e2
-            rw [← e2]
-            exact h2
+          · cases hk; rw [← e1, h1]; cases (insertPlan t src fam net rpid).isNew <;> simp
+          · rw [(hoth a f hk).1]; omega
+        · intro a f
+          by_cases hk : (a, f) = (src.addr, fam)
+          · cases hk; rw [← e2]; exact h2
           · rw [(hoth a f hk).2]; omega
-        · have e1 : st.1 = _ := congrArg Prod.fst hself
-          simp only [] at e1
-          rw [← e1, h1, hnew]
-        · rw [hctrs, hnew]
+        · have := hcnt src.id
+          rw [hEsrc] at this
+          simp only [beq_self_eq_true, Bool.true_or, Bool.toNat_true] at this
+          unfold sessCount
+          generalize ((t.entries fam net).any fun e => e.src.id == src.id) = b at this ⊢
+          cases b <;>
+            simp only [Bool.toNat_false, Bool.toNat_true, Bool.not_false, Bool.not_true] at this ⊢ <;> omega
+        · rw [hctrs, hhas]
         · intro hn max hmax
           unfold limitHit at hlim
-          rw [hnew, hn, hmax] at hlim
+          rw [hhas, hn, hmax] at hlim
           simpa using hlim
+        · intro i f hk
+          by_cases hf : f = fam
+          · subst hf
+            have hi : (src.id == i) = false := by
+              rw [beq_eq_false_iff_ne]; intro e; exact hk (by rw [e])
+            have := hcnt i
+            rw [hEsrc, hi, Bool.false_or] at this
+            have hle := toNat_le_of_imp (hsub i)
+            unfold sessCount
+            omega
+          · rw [insTable_rib_ne src net _ E st hf]; exact Nat.le_refl _
+        · intro i f hk hno
+          by_cases hf : f = fam
+          · subst hf
+            have hi : (src.id == i) = false := by
+              rw [beq_eq_false_iff_ne]; intro e; exact hk (by rw [e])
+            have := hcnt i
+            rw [hEsrc, hi, Bool.false_or] at this
+            have heq : (insertPlan t src f net rpid).entries.any (fun x => x.src.id == i) =
+                (t.entries f net).any (fun x => x.src.id == i) := by
+              rw [← hes]
+              apply plan_any_eq spec
+              intro x hx ha
+              rw [beq_eq_false_iff_ne]
+              intro hxi
+              exact hno rfl x (by rw [← hes]; exact hx) hxi ha
+            rw [heq] at this
+            unfold sessCount
+            omega
+          · rw [insTable_rib_ne src net _ E st hf]
 
 /-! ## `remove` -/
+
+theorem remove_cnt {fam : Fam} {net : Net} {dst : Dest} (h : alookup net (t.rib fam).dests = some dst)
+    (es' : List Entry) (st : List ((Nat × Fam) × (Nat × Nat))) (cs : List ((Nat × Fam) × Nat)) (q : Entry → Bool) :
+    cntBy q ((t.upd fam (remRib (t.rib fam) net dst es') st cs).rib fam) + (dst.entries.any q).toNat =
+      cntBy q (t.rib fam) + (es'.any q).toNat := by
+  have hold : oldEs net (t.rib fam).dests = dst.entries := by unfold oldEs; rw [h]
+  rw [upd_rib_self, cntBy_eq, cntBy_eq]
+  unfold remRib
+  split
+  · rename_i he
+    rw [List.isEmpty_iff.mp he]
+    have := cntL_aerase q net (t.rib fam).dests
+    rw [hold] at this
+    simpa using this
+  · have := cntL_aset q net { dst with entries := es' } (t.rib fam).dests
+    rw [hold] at this
+    exact this
 
 theorem ctrFacts_remove (p : Profile) (hinv : Inv c g t) (hinv' : Inv c g t') (src : Src) (fam : Fam) (net : Net)
     (rpid : Nat) {r : Res} (hstep : t.remove p src fam net rpid = .ok (t', r)) :
     CtrFacts t (.remove src fam net rpid) t' r := by
   have hsame : t' = t → CtrFacts t (.remove src fam net rpid) t' r := by
     intro e; subst e
-    exact ⟨fun a f => by omega, false, rfl, fun _ _ _ => rfl, rfl⟩
+    exact ⟨fun a f => by omega, fun a f => by omega, false, rfl, rfl, fun _ _ _ => Nat.le_refl _,
+      fun _ _ _ _ => rfl⟩
   cases h : alookup net (t.rib fam).dests with
   | none => rw [remove_eq_none h] at hstep; cases hstep; exact hsame rfl
   | some dst =>
@@ -228,6 +396,7 @@ theorem ctrFacts_remove (p : Profile) (hinv : Inv c g t) (hinv' : Inv c g t') (s
       have haddr : removed.src.addr = src.addr := addr_of_matchKey hm
       have hperm := eraseIdx_perm hi
       have hold : oldEs net (t.rib fam).dests = dst.entries := by unfold oldEs; rw [h]
+      have hent : t.entries fam net = dst.entries := by unfold Table.entries; rw [h]
       have hdin : (net, dst) ∈ (t.rib fam).dests := alookup_some_mem h
       have hsI := hinv.stats src.addr fam
       cases hs : alookup (src.addr, fam) t.stats with
@@ -261,33 +430,92 @@ theorem ctrFacts_remove (p : Profile) (hinv : Inv c g t) (hinv' : Inv c g t') (s
             (aset (src.addr, fam) (recvCount src.addr (t.rib fam) -
                 (if (dst.entries.eraseIdx i).any (sameAddr src.addr) then 0 else 1),
               accCount src.addr (t.rib fam) - (if removed.filtered then 0 else 1)) t.stats)
-            (remCtrs t src fam (dst.entries.eraseIdx i))).stats = aset (src.addr, fam) _ t.stats := upd_stats ..
+            (remCtrs t src fam removed (dst.entries.eraseIdx i))).stats = aset (src.addr, fam) _ t.stats := upd_stats ..
         have hself := counts_of_aset hinv' hstats
         have e1 := congrArg Prod.fst hself
         have e2 := congrArg Prod.snd hself
         simp only [] at e1 e2
         have hoth : ∀ a f, (a, f) ≠ (src.addr, fam) → _ := fun a f hk =>
           counts_of_lookup hinv hinv' (a := a) (f := f) (by rw [hstats, alookup_aset_ne hk])
-        have hR1 : 1 ≤ recvCount src.addr (t.rib fam) := by
-          rw [recvCount_eq, hcnt.1]; simp only [if_true]; omega
-        refine ⟨?_, !(dst.entries.eraseIdx i).any (sameAddr src.addr), ?_, fun a f hk => (hoth a f hk).1, ?_⟩
+        have hq := fun k => remove_cnt (t := t) h (dst.entries.eraseIdx i)
+          (aset (src.addr, fam) (recvCount src.addr (t.rib fam) -
+                (if (dst.entries.eraseIdx i).any (sameAddr src.addr) then 0 else 1),
+              accCount src.addr (t.rib fam) - (if removed.filtered then 0 else 1)) t.stats)
+          (remCtrs t src fam removed (dst.entries.eraseIdx i)) (fun x => x.src.id == k)
+        have hany : ∀ k, dst.entries.any (fun x => x.src.id == k) =
+            (removed.src.id == k || (dst.entries.eraseIdx i).any fun x => x.src.id == k) := by
+          intro k; rw [hperm.any_eq, List.any_cons]
+        have hne : ∀ {f : Fam}, f ≠ fam → ∀ k, sessCount k ((t.upd fam (remRib (t.rib fam) net dst (dst.entries.eraseIdx i))
+            (aset (src.addr, fam) (recvCount src.addr (t.rib fam) -
+                (if (dst.entries.eraseIdx i).any (sameAddr src.addr) then 0 else 1),
+              accCount src.addr (t.rib fam) - (if removed.filtered then 0 else 1)) t.stats)
+            (remCtrs t src fam removed (dst.entries.eraseIdx i))).rib f) = sessCount k (t.rib f) := by
+          intro f hf k; rw [upd_rib_ne _ _ _ _ hf]
+        refine ⟨?_, ?_, removed.src.id == src.id && !((dst.entries.eraseIdx i).any fun x => x.src.id == src.id),
+          ?_, ?_, ?_, ?_⟩
+        · intro a f
+          by_cases hk : (a, f) = (src.addr, fam)
+          · cases hk; rw [← e1]; omega
+          · rw [(hoth a f hk).1]; omega
         · intro a f
           by_cases hk : (a, f) = (src.addr, fam)
           · cases hk; rw [← e2]; omega
           · rw [(hoth a f hk).2]; omega
-        · rw [← e1]
-          cases (dst.entries.eraseIdx i).any (sameAddr src.addr)
-          · simp only [Bool.false_eq_true, if_false, Bool.not_false, Bool.toNat_true]; omega
-          · simp only [if_true, Bool.not_true, Bool.toNat_false]; omega
-        · rw [upd_ctrs]; rfl
+        · have := hq src.id
+          rw [hany src.id] at this
+          unfold sessCount
+          generalize (removed.src.id == src.id) = b1 at this ⊢
+          generalize ((dst.entries.eraseIdx i).any fun x => x.src.id == src.id) = b2 at this ⊢
+          cases b1 <;> cases b2 <;> simp at this ⊢ <;> omega
+        · rw [upd_ctrs]; unfold remCtrs; rfl
+        · intro k f hk
+          by_cases hf : f = fam
+          · subst hf
+            have := hq k
+            rw [hany k] at this
+            unfold sessCount
+            generalize (removed.src.id == k) = b1 at this ⊢
+            generalize ((dst.entries.eraseIdx i).any fun x => x.src.id == k) = b2 at this ⊢
+            cases b1 <;> cases b2 <;> simp at this ⊢ <;> omega
+          · rw [hne hf]; exact Nat.le_refl _
+        · intro k f hk hno
+          by_cases hf : f = fam
+          · subst hf
+            have hrk : (removed.src.id == k) = false := by
+              rw [beq_eq_false_iff_ne]
+              intro e
+              exact hno rfl removed (by rw [hent]; exact hmem) e haddr
+            have := hq k
+            rw [hany k, hrk, Bool.false_or] at this
+            unfold sessCount
+            omega
+          · rw [hne hf]
 
 /-! ## purges -/
+
+theorem cntBy_purge (fam : Fam) (addr : Nat) (pred : Entry → Bool) (q : Entry → Bool) {rib : Rib}
+    (hne : ∀ nd ∈ rib.dests, nd.2.entries ≠ []) :
+    cntBy q (purgeRib fam addr pred rib) =
+      (rib.dests.map fun nd => ((keptD pred nd.2).entries.any q).toNat).sum := by
+  unfold cntBy
+  rw [purgeRib_dests fam addr pred hne]
+  unfold keptDests
+  rw [List.filter_filter, List.filter_map, List.length_map, length_filter_eq_sum]
+  apply sum_map_congr
+  intro nd _
+  simp only [Function.comp]
+  by_cases hk : (keptD pred nd.2).entries = []
+  · simp [hk]
+  · have he : (keptD pred nd.2).entries.isEmpty = false := by
+      rw [Bool.eq_false_iff, Ne, List.isEmpty_iff]; exact hk
+    rw [he]; simp
 
 theorem ctrFacts_purge (p : Profile) (hinv : Inv c g t) (hinv' : Inv c g t') {addr : Nat} {fam : Fam}
     {pred : Entry → Bool} (ctr : Option Nat) (dropStats : Bool)
     (hp : ∀ e, pred e = true → sameAddr addr e = true)
     (hdrop : dropStats = true → pred = sameAddr addr) {r : Res}
     (hstep : t.purge p addr fam pred ctr dropStats = .ok (t', r)) :
+    (∀ a f, recvCount a (t'.rib f) ≤ recvCount a (t.rib f) + 1) ∧
     (∀ a f, accCount a (t'.rib f) ≤ accCount a (t.rib f) + 1) ∧ PurgeSpec t t' addr fam ctr := by
   obtain ⟨stats', hrun, hst, _, _⟩ := purge_stats (fam := fam) p ctr dropStats hp hdrop hinv
   rw [hrun] at hstep
@@ -297,7 +525,17 @@ theorem ctrFacts_purge (p : Profile) (hinv : Inv c g t) (hinv' : Inv c g t') {ad
   have hsh := purgeTable_shape t fam addr pred ctr stats'
   have hoth : ∀ a f, (a, f) ≠ (addr, fam) → _ := fun a f hk =>
     counts_of_lookup hinv hinv' (a := a) (f := f) (by rw [purgeTable_stats]; exact hst _ hk)
-  refine ⟨?_, purgeGone fam addr pred (t.rib fam), ?_, fun a f hk => (hoth a f hk).1, rfl⟩
+  have hsum : ∀ q : Entry → Bool, cntBy q (t.rib fam) =
+      ((t.rib fam).dests.map fun nd => (nd.2.entries.any q).toNat).sum := fun q => cntL_eq_sum q _
+  have hsub : ∀ nd : Net × Dest, (keptD pred nd.2).entries.Sublist nd.2.entries := fun nd => List.filter_sublist
+  refine ⟨?_, ?_, purgeGone fam addr pred (t.rib fam), rfl, ?_, ?_, ?_⟩
+  · intro a f
+    by_cases hk : (a, f) = (addr, fam)
+    · cases hk
+      rw [hsh.ribSame]
+      have := recvCount_purge_self fam hp hne
+      omega
+    · rw [(hoth a f hk).1]; omega
   · intro a f
     by_cases hk : (a, f) = (addr, fam)
     · cases hk
@@ -305,56 +543,156 @@ theorem ctrFacts_purge (p : Profile) (hinv : Inv c g t) (hinv' : Inv c g t') {ad
       have := accCount_purge_self fam hp hne
       omega
     · rw [(hoth a f hk).2]; omega
-  · rw [hsh.ribSame]
+  · intro i f'
+    by_cases hf : f' = fam
+    · subst hf
+      unfold sessCount
+      rw [hsh.ribSame, cntBy_purge f' addr pred _ hne, hsum]
+      exact sum_map_le fun nd _ => toNat_le_of_imp (any_of_sublist (hsub nd))
+    · rw [hsh.ribOther f' hf]; exact Nat.le_refl _
+  · intro i f' hno
+    by_cases hf : f' = fam
+    · subst hf
+      unfold sessCount
+      rw [hsh.ribSame, cntBy_purge f' addr pred _ hne, hsum]
+      apply sum_map_congr
+      intro nd hnd
+      congr 1
+      rw [keptD_entries, List.any_filter]
+      apply any_congr_of_mem
+      intro e he
+      cases hq : (e.src.id == i)
+      · simp
+      · have hai := hno rfl nd hnd e he (by simpa using hq)
+        have : pred e = false := by
+          cases hpe : pred e
+          · rfl
+          · have := hp e hpe
+            simp only [sameAddr, beq_iff_eq] at this
+            exact absurd this hai
+        simp [this]
+    · rw [hsh.ribOther f' hf]
+  · intro i hag
+    have hq : ∀ nd ∈ (t.rib fam).dests, ∀ e ∈ nd.2.entries, (e.src.id == i) = sameAddr addr e := by
+      intro nd hnd e he
+      rw [Bool.eq_iff_iff, beq_iff_eq]
+      simp only [sameAddr, beq_iff_eq]
+      exact hag nd hnd e he
+    have h1 : sessCount i (t.rib fam) = recvCount addr (t.rib fam) := by
+      unfold sessCount cntBy recvCount
+      congr 1
+      exact List.filter_congr fun nd hnd => any_congr_of_mem (hq nd hnd)
+    have h2 : sessCount i (purgeRib fam addr pred (t.rib fam)) = recvCount addr (purgeRib fam addr pred (t.rib fam)) := by
+      unfold sessCount
+      rw [cntBy_purge fam addr pred _ hne, recvCount_purge fam addr pred addr hne]
+      apply sum_map_congr
+      intro nd hnd
+      congr 1
+      exact any_congr_of_mem fun e he => hq nd hnd e ((hsub nd).subset he)
+    rw [hsh.ribSame, h1, h2]
     exact recvCount_purge_self fam hp hne
 
 /-! ## every operation -/
 
+theorem ctrFacts_mapped (hinv : Inv c g t) (hinv' : Inv c g t') (hs : t'.stats = t.stats) (hc : t'.ctrs = t.ctrs)
+    {F : Fam → Net × Dest → Net × Dest} (hd : ∀ f, (t'.rib f).dests = (t.rib f).dests.map (F f))
+    (hF : ∀ f, ∀ nd ∈ (t.rib f).dests, ∀ i,
+      ((F f nd).2.entries.any fun e => e.src.id == i) = nd.2.entries.any fun e => e.src.id == i) :
+    (∀ a f, recvCount a (t'.rib f) ≤ recvCount a (t.rib f) + 1) ∧
+    (∀ a f, accCount a (t'.rib f) ≤ accCount a (t.rib f) + 1) ∧
+    (∀ i f, sessCount i (t'.rib f) = sessCount i (t.rib f)) ∧ t'.ctrs = t.ctrs := by
+  obtain ⟨h1, h2⟩ := le_of_stats_eq hinv hinv' hs
+  refine ⟨h1, h2, ?_, hc⟩
+  intro i f
+  unfold sessCount
+  rw [cntBy_eq, cntBy_eq, hd f]
+  exact cntL_map_congr fun nd hnd => hF f nd hnd i
+
+theorem nhvUpd_src (nh : Nat) (reachable : Bool) (e : Entry) : (nhvUpd nh reachable e).src = e.src := by
+  unfold nhvUpd; split <;> rfl
+
 theorem ctrFacts_step (p : Profile) (hinv : Inv c g t) (hinv' : Inv c g t') (op : Op) {r : Res}
     (hstep : t.step p op = .ok (t', r)) : CtrFacts t op t' r := by
+  have hid : (∀ f, (t'.rib f).dests = (t.rib f).dests) → t'.stats = t.stats → t'.ctrs = t.ctrs →
+      (∀ a f, recvCount a (t'.rib f) ≤ recvCount a (t.rib f) + 1) ∧
+      (∀ a f, accCount a (t'.rib f) ≤ accCount a (t.rib f) + 1) ∧
+      (∀ i f, sessCount i (t'.rib f) = sessCount i (t.rib f)) ∧ t'.ctrs = t.ctrs := by
+    intro hd hs hc
+    exact ctrFacts_mapped hinv hinv' hs hc (F := fun _ nd => nd) (fun f => by rw [hd f, List.map_id'])
+      (fun _ _ _ _ => rfl)
   cases op with
   | insert src fam net rpid nh attr filtered nhInv =>
     exact ctrFacts_insert p hinv hinv' src fam net rpid nh attr filtered nhInv hstep
   | remove src fam net rpid => exact ctrFacts_remove p hinv hinv' src fam net rpid hstep
   | drop addr fam =>
-    obtain ⟨h1, h2⟩ := ctrFacts_purge p hinv hinv' none true (fun _ h => h) (fun _ => rfl) hstep
-    exact ⟨h1, h2⟩
+    obtain ⟨h1, h2, h3⟩ := ctrFacts_purge p hinv hinv' none true (fun _ h => h) (fun _ => rfl) hstep
+    exact ⟨h1, h2, h3⟩
   | dropStale addr fam ctr =>
-    obtain ⟨h1, h2⟩ := ctrFacts_purge p hinv hinv' ctr false (fun e h => by simp at h; exact h.1)
+    obtain ⟨h1, h2, h3⟩ := ctrFacts_purge p hinv hinv' ctr false (fun e h => by simp at h; exact h.1)
       (fun h => by simp at h) hstep
-    exact ⟨h1, h2⟩
+    exact ⟨h1, h2, h3⟩
   | dropLlgr addr fam ctr =>
-    obtain ⟨h1, h2⟩ := ctrFacts_purge p hinv hinv' ctr false (fun e h => by simp at h; exact h.1)
+    obtain ⟨h1, h2, h3⟩ := ctrFacts_purge p hinv hinv' ctr false (fun e h => by simp at h; exact h.1)
       (fun h => by simp at h) hstep
-    exact ⟨h1, h2⟩
+    exact ⟨h1, h2, h3⟩
   | dropNoLlgr addr fam ctr =>
-    obtain ⟨h1, h2⟩ := ctrFacts_purge p hinv hinv' ctr false (fun e h => by simp at h; exact h.1)
+    obtain ⟨h1, h2, h3⟩ := ctrFacts_purge p hinv hinv' ctr false (fun e h => by simp at h; exact h.1)
       (fun h => by simp at h) hstep
-    exact ⟨h1, h2⟩
+    exact ⟨h1, h2, h3⟩
   | restale addr fam =>
     cases hstep
+    obtain ⟨FL, hd⟩ := restaleGen_dests addr fam false hinv
     have hs : (t.restaleGen addr fam false).1.stats = t.stats := by simp [Table.restaleGen]
-    obtain ⟨h1, h2⟩ := ctrFacts_same hinv hinv' hs
-    exact ⟨h1, h2, by simp⟩
+    have hc : (t.restaleGen addr fam false).1.ctrs = t.ctrs := by simp [Table.restaleGen]
+    obtain ⟨h1, h2, h3, h4⟩ := ctrFacts_mapped hinv hinv' hs hc hd (by
+      intro f nd _ i
+      by_cases hf : f = fam
+      · simp only [if_pos hf]
+        cases ht : nd.2.entries.any (sameAddr addr) with
+        | false => rw [rd_untouched fam addr FL nd ht]
+        | true => rw [rd_entries_touched fam addr FL nd ht, (sortBy_perm _ _).any_eq]
+      · simp only [if_neg hf])
+    exact ⟨h1, h2, h3, h4⟩
   | restaleLlgr addr fam =>
     cases hstep
+    obtain ⟨FL, hd⟩ := restaleGen_dests addr fam true hinv
     have hs : (t.restaleGen addr fam true).1.stats = t.stats := by simp [Table.restaleGen]
-    obtain ⟨h1, h2⟩ := ctrFacts_same hinv hinv' hs
-    exact ⟨h1, h2, by simp⟩
+    have hc : (t.restaleGen addr fam true).1.ctrs = t.ctrs := by simp [Table.restaleGen]
+    obtain ⟨h1, h2, h3, h4⟩ := ctrFacts_mapped hinv hinv' hs hc hd (by
+      intro f nd _ i
+      by_cases hf : f = fam
+      · simp only [if_pos hf]
+        cases ht : nd.2.entries.any (sameAddr addr) with
+        | false => rw [rd_untouched fam addr FL nd ht]
+        | true => rw [rd_entries_touched fam addr FL nd ht, (sortBy_perm _ _).any_eq]
+      · simp only [if_neg hf])
+    exact ⟨h1, h2, h3, h4⟩
   | nhValidity nh reachable =>
     cases hstep
-    obtain ⟨h1, h2⟩ := ctrFacts_same hinv hinv' (show (t.nhValidity nh reachable).1.stats = t.stats from rfl)
-    exact ⟨h1, h2, rfl⟩
+    obtain ⟨h1, h2, h3, h4⟩ := ctrFacts_mapped hinv hinv'
+      (show (t.nhValidity nh reachable).1.stats = t.stats from rfl)
+      (show (t.nhValidity nh reachable).1.ctrs = t.ctrs from rfl)
+      (F := fun f nd => (nhvDest f nh reachable nd).1)
+      (fun f => by show ((t.nhValidity nh reachable).1.rib f).dests = _; rw [nhValidity_rib, nhv_dests])
+      (by
+        intro f nd _ i
+        cases ht : (nd.2.entries.any fun e => e.nh == some nh && e.nhInv != !reachable) with
+        | false => rw [nhvDest_untouched f nh reachable nd ht]
+        | true =>
+          rw [nhvDest_touched f nh reachable nd ht]
+          simp only [List.any_map]
+          exact any_congr_of_mem fun e _ => by simp only [Function.comp, nhvUpd_src])
+    exact ⟨h1, h2, h3, h4⟩
   | startDeferral fam =>
     cases hstep
-    have hs : (t.startDeferral fam).stats = t.stats := by simp [Table.startDeferral]
-    obtain ⟨h1, h2⟩ := ctrFacts_same hinv hinv' hs
-    exact ⟨h1, h2, by simp [Table.startDeferral]⟩
+    obtain ⟨h1, h2, h3, h4⟩ := hid (fun f => setDeferring_dests t fam true f)
+      (by simp [Table.startDeferral]) (by simp [Table.startDeferral])
+    exact ⟨h1, h2, h3, h4⟩
   | endDeferral fam =>
     cases hstep
-    have hs : (t.endDeferral fam).1.stats = t.stats := by simp [Table.endDeferral]
-    obtain ⟨h1, h2⟩ := ctrFacts_same hinv hinv' hs
-    exact ⟨h1, h2, by simp⟩
+    obtain ⟨h1, h2, h3, h4⟩ := hid (fun f => setDeferring_dests t fam false f)
+      (by simp) (by simp)
+    exact ⟨h1, h2, h3, h4⟩
 
 end
 
